@@ -173,17 +173,6 @@ class Target:
             ex.unsupported.append(f"loop invariant keys not matched (loop header changed?): {missing_loops}")
 
         obs = ex.obligations
-        # unknown obligations: try cvc5 on the dumped query
-        for ob in obs:
-            if ob.status == "unknown" and ob.smt2:
-                from .solve import cvc5_check
-
-                r, secs = cvc5_check(ob.smt2, timeout_s=max(10, self.oblig_timeout_ms // 1000))
-                ob.secs += secs
-                if r == "unsat":
-                    ob.status, ob.solver = "discharged", "cvc5"
-                elif r == "sat":
-                    ob.status, ob.solver = "refuted", "cvc5"
         res["obligations"] = [o.to_json() for o in obs]
         res["paths"] = ex.paths
         res["paths_completed"] = ex.paths_completed
